@@ -18,6 +18,11 @@ def parse_files(obs, part, prop, replay):
                 if prop == 'C05':
                     part.violation('invalid-record-sequence/' + classify_warc_error(str(e)),
                                    {'file': name, 'error': str(e)[:300], 'config': obs['config']}, replay)
+                elif prop == 'C04' and getattr(e, 'rec_type', None) in ('request', 'response', 'revisit'):
+                    # the record whose block cannot be delimited by its own Content-Length is a request/response
+                    # record itself: its block is not the bytes of the exchange (it swallows or loses bytes)
+                    part.violation('record-block-not-delimited-by-its-length/' + e.rec_type,
+                                   {'file': name, 'error': str(e)[:300], 'config': obs['config']}, replay)
                 else:
                     part.inconclusive.append('archive unreadable (C05 territory): ' + str(e)[:200])
                 return None
@@ -312,6 +317,10 @@ def oracle_c07(obs, part, replay):
             part.violation('cdx-checksum-wrong', {'row': row, 'record': pd}, replay)
         status, mime = refwarc.http_status_and_mime(rec['block'])
         long_header = '/header-over-4KiB' if (refwarc.http_payload_offset(rec['block']) or 0) > 4096 else ''
+        head_end = refwarc.http_payload_offset(rec['block']) or len(rec['block'])
+        if any(ln and b':' not in ln and ln[:1] not in b' \t' for ln in re.split(br'\r?\n', rec['block'][:head_end])[1:]):
+            long_header += '/colonless-line'
+            part.count('cdx_lines_for_headers_with_colonless_line')
         if row.get('s') != (status or '-'):
             part.violation('cdx-status-wrong' + long_header, {'row_s': row.get('s'), 'archived': status,
                                                 'head': rec['block'][:120]}, replay)
@@ -398,6 +407,16 @@ def vary_content_types(rng, case):
                 r['boundaries'] = [b + delta if b > 20 else b for b in r['boundaries']]
                 r['head_len'] += delta
             r['wire'] = new
+        if rng.random() < 0.12:
+            # a header line without a colon (a stray status line or cache note that servers do emit): the client
+            # skips it, the archived block keeps it, status and MIME type must still be read back
+            eol = r['wire'].find(b'\n') + 1
+            end = b'\r\n' if r['wire'][:eol].endswith(b'\r\n') else b'\n'
+            junk = rng.choice([b'X-Cache HIT from proxy', b'HTTP/1.0 200 OK', b'garbage', b'Status 200']) + end
+            r['wire'] = r['wire'][:eol] + junk + r['wire'][eol:]
+            r['boundaries'] = [b + len(junk) if b >= eol else b for b in r['boundaries']]
+            r['head_len'] += len(junk)
+            r['classes'] = dict(r['classes'], colonless_line=True)
         if rng.random() < 0.08:
             # header block longer than 4 KiB (status/MIME are read back from the block)
             pad = b'X-Pad: ' + b'p' * rng.choice([3900, 5000, 9000]) + b'\r\n'
